@@ -1,0 +1,58 @@
+//go:build verif
+
+package directory
+
+import (
+	"sort"
+
+	"github.com/lugu/qiloop/bus"
+)
+
+// This file is only compiled with the build tag `verif`. It gives the
+// verification harness access to the unexported directory implementation.
+// It adds no behaviour to the package.
+
+// VerifDirectory wraps the unexported serviceDirectory implementation.
+type VerifDirectory struct {
+	impl *serviceDirectory
+}
+
+// VerifNewDirectory returns a fresh implementation, exactly as
+// NewServer creates it.
+func VerifNewDirectory() *VerifDirectory {
+	return &VerifDirectory{impl: serviceDirectoryImpl()}
+}
+
+// Impl returns the implementation behind its generated interface.
+func (v *VerifDirectory) Impl() ServiceDirectoryImplementor {
+	return v.impl
+}
+
+// Namespace returns the local namespace adapter (as NewServer does).
+func (v *VerifDirectory) Namespace(addr string) bus.Namespace {
+	return v.impl.Namespace(addr)
+}
+
+// Object returns the actor serving the implementation (as NewServer does).
+func (v *VerifDirectory) Object() bus.Actor {
+	return ServiceDirectoryObject(v.impl)
+}
+
+// State returns a copy of the registry state, each list sorted by id.
+// Not synchronised: call it only while no operation is running.
+func (v *VerifDirectory) State() (staging, services []ServiceInfo, lastID uint32) {
+	for _, i := range v.impl.staging {
+		staging = append(staging, i)
+	}
+	for _, i := range v.impl.services {
+		services = append(services, i)
+	}
+	sort.Sort(serviceList(staging))
+	sort.Sort(serviceList(services))
+	return staging, services, v.impl.lastID
+}
+
+// SetLastID sets the identifier counter. Not synchronised.
+func (v *VerifDirectory) SetLastID(id uint32) {
+	v.impl.lastID = id
+}
